@@ -1654,7 +1654,8 @@ Proof.
   destruct (nth_opt tokens (S idx)) as [t|]; cbn [fst]; [|lia].
   destruct t as [ | | | | |c| | | | | | | | ];
     try match goal with |- context[assign_name_loop f tokens vs (S idx) ?n] => pose proof (IH (S idx) n); lia end.
-  destruct (N.eqb c OP_EQ); cbn [fst]; [lia|]. pose proof (IH (S idx) name). lia.
+  destruct (N.eqb c OP_EQ); cbn [fst]; [lia|].
+  match goal with |- context[assign_name_loop f tokens vs (S idx) ?n] => pose proof (IH (S idx) n); lia end.
 Qed.
 
 Lemma assign_name_loop_gt (tokens : list (token F)) vs f idx name :
@@ -1665,7 +1666,9 @@ Proof.
   destruct t as [ | | | | |c| | | | | | | | ];
     try match goal with |- context[assign_name_loop f tokens vs (S idx) ?n] =>
           pose proof (assign_name_loop_ge tokens vs f (S idx) n); lia end.
-  destruct (N.eqb c OP_EQ); cbn [fst]; [lia|]. pose proof (assign_name_loop_ge tokens vs f (S idx) name). lia.
+  destruct (N.eqb c OP_EQ); cbn [fst]; [lia|].
+  match goal with |- context[assign_name_loop f tokens vs (S idx) ?n] =>
+    pose proof (assign_name_loop_ge tokens vs f (S idx) n); lia end.
 Qed.
 
 Lemma assign_name_loop_first (tokens : list (token F)) vs name :
@@ -1678,7 +1681,9 @@ Proof.
     destruct t as [ | | | | |c| | | | | | | | ];
       try match goal with |- context[assign_name_loop (S f) tokens vs 1 ?n] =>
             pose proof (assign_name_loop_gt tokens vs f 1 n); lia end.
-    destruct (N.eqb c OP_EQ); cbn [fst]; [lia|]. pose proof (assign_name_loop_gt tokens vs f 1 name). lia.
+    destruct (N.eqb c OP_EQ); cbn [fst]; [lia|].
+    match goal with |- context[assign_name_loop (S f) tokens vs 1 ?n] =>
+      pose proof (assign_name_loop_gt tokens vs f 1 n); lia end.
   - right. cbn [fst]. split; [reflexivity|].
     destruct tokens as [|a [|b r]]; cbn [length nth_opt] in *; try lia. discriminate.
 Qed.
